@@ -52,6 +52,18 @@ def pendingOverflows (lm : Lims) : Nat → List (List UInt8 × Bool) → List (L
     else if !(countOk lm cand && linesOk lm cand) then false
     else true
 
+/-- Does the greedy growth, over the whole input, ever meet a size overflow with a non-empty pending
+    command (count and line limits start a new command instead)? -/
+def anyOverflow (lm : Lims) : Nat → List (List UInt8 × Bool) → List (List UInt8 × Bool) → Bool
+  | 0, _, _ => false
+  | _, _, [] => false
+  | fuel + 1, cur, a :: as =>
+    let cand := cur ++ [a]
+    if fits lm cand then anyOverflow lm fuel cand as
+    else if !(countOk lm cand && linesOk lm cand) then
+      (if fits lm [a] then anyOverflow lm fuel [a] as else true)
+    else true
+
 def pred (opts : List Opt) (cmd : List (List UInt8)) (input : List UInt8) (sys : Nat)
     (status : Nat) (argvs : List (List (List UInt8))) : Bool :=
   let nz := normalize opts
@@ -91,7 +103,9 @@ def pred (opts : List Opt) (cmd : List (List UInt8)) (input : List UInt8) (sys :
     if !(prefixOk && isPrefix && within && maximal batches) then false
     else if status == 0 || status == 123 then
       complete && nonEmptyBatches &&
-        (if args.isEmpty then (if r then argvs.isEmpty else argvs.length == 1) else true)
+        (if args.isEmpty then (if r then argvs.isEmpty else argvs.length == 1) else true) &&
+        -- with -x (and -n or -L in force) a size overflow must have ended the run with status 1
+        !(x && (lm.n.isSome || lm.l.isSome) && anyOverflow lm (args.length + 1) [] args)
     else if status == 1 then
       let rest := args.drop flat.length
       match rest with
